@@ -275,6 +275,7 @@ tls_handshake_client(struct tls *ctx)
 			if (rv != -2)
 				tls_set_errorx(ctx, "name `%s' not present in"
 				    " server certificate", ctx->servername);
+			rv = -1;
 			goto err;
 		}
 	}
